@@ -107,6 +107,7 @@ TEXT_CASES = {
     ("C15", "loop-depth-underflow-fn-signature", "bd16179"): "while true { fn f() }",
     ("C15", "loop-depth-underflow-method-signature", "bd16179"): "let i=0; while i < 3 { class B { bar() let { 1 } } }",
     ("C15", "both-if-arms-exit-with-locals", "be35216"): "let c1 = 0;\nwhile nil {\n  if c1 {\n  } else {\n    let c2 = 0;\n    let v6 = 9;\n    if c2 { continue; } else { continue; }\n  }\n}\nfn f(a) { let p = 1; let q = 2; if a { return p; } else { return q; } }\nprint(f(true));",
+    ("C15", "for-iterable-lambda-names-loop-variable", "b5a9269"): "fn f() { let x = [1, 2, 3]; for x in (|| x)() { print(x); } } f();",
     ("C15", "lambda-continue-in-loop", "de28c2e"): "for i in [1] { let f = || { continue; }; }",
     ("C15", "lambda-break-in-loop", "de28c2e"): "while true { let f = || { break; }; break; }",
     ("C15", "call-with-254-args", "48393ed"): "fn f(" + ", ".join("p%d" % i for i in range(254)) + ") { return p0; }\nprint(f(" + ", ".join("1" for _ in range(254)) + "));",
@@ -123,7 +124,22 @@ C11_CASES = {
 }
 
 
+C02_CASES = {
+    ("C02", "for-iterable-lambda-names-loop-variable", "b5a9269"):
+        [("fn", "f", [], [("let", "x", ("list", [N(1), N(2), N(3)])),
+                          ("for", "x", ("call", ("group", ("lambda", [], ("expr", V("x")))), []), [("print", V("x"))]),
+                          ("print", V("x"))]),
+         ("expr", call("f"))],
+    ("C02", "closure-before-shadowing-let-sees-outer", "b5a9269"):
+        [("let", "m", N(7)),
+         ("fn", "mk", [], [("let", "g", ("lambda", [], ("expr", V("m")))), ("let", "m", N(0)), ("return", ("list", [V("g")]))]),
+         ("print", ("call", ("index", call("mk"), N(0)), []))],
+}
+
+
 def main():
+    for (pid, name, commit), prog in C02_CASES.items():
+        write(pid, name, commit, (prog, 0, []))
     for (pid, name, commit), prog in C11_CASES.items():
         write(pid, name, commit, (tuple([("kind", "list")] + prog), 0))
     for (pid, name, commit), prog in C14_CASES.items():
